@@ -197,3 +197,68 @@ pub fn run_err(rep: &mut Report, o: &Opts) {
         rep.count_n("missing_required_errors_compared_with_model", reqs.len() as u64);
     }
 }
+
+/// what an `ArgumentConflict` error raised by the VALIDATOR carries: the argument it is about (`InvalidArg`), the
+/// arguments it cannot be used with (`PriorArg`, groups unrolled) and the usage line, against `Usage.conflictError`
+pub fn run_conflict(rep: &mut Report, o: &Opts) {
+    use clap::error::{ContextKind, ContextValue, ErrorKind};
+    let mut rng = Rng::new(o.seed ^ 0x0CF1);
+    let cfg = GenCfg { relations: true, defaults: true, subs: false, exotic: false, groups: true, flagsubs: false, settings: true, globals: false };
+    let n_cmds = if o.thorough() { 6000 } else { 350 };
+    let mut reqs: Vec<String> = vec![]; let mut reals: Vec<String> = vec![]; let mut readable: Vec<String> = vec![];
+    let mut tried = 0; let mut accepted = 0;
+    while accepted < n_cmds && tried < n_cmds * 30 {
+        tried += 1;
+        let mut cmd = gen_cmd(&mut rng, &cfg, 0, "prog");
+        // more conflicts than the parser generator declares
+        let ids: Vec<String> = cmd.args.iter().map(|a| a.id.clone()).collect();
+        for a in cmd.args.iter_mut() { if rng.chance(1, 3) && ids.len() > 1 { let o2 = rng.pick(&ids).clone(); if o2 != a.id && !a.blacklist.contains(&o2) { a.blacklist.push(o2); } } if rng.chance(1, 6) { a.hide = true; } }
+        cmd.settings.ignore_errors = false;
+        let mut ux = gen_ux(&mut rng, &cmd); ux.hidden_subs.clear();
+        for (id, names) in &ux.val_names { if let Some(a) = cmd.args.iter_mut().find(|a| &a.id == id) { a.val_names = names.clone(); } }
+        if !real_valid(&cmd) { rep.count("conflicterr:invalid_definition(skipped)"); continue; }
+        accepted += 1;
+        for _ in 0..8 {
+            let argv = gen_argv(&mut rng, &cmd, 5);
+            let key = format!("conflicterr {} ARGV {:?}", cmd.encode(), argv.iter().map(|a| String::from_utf8_lossy(a).to_string()).collect::<Vec<_>>());
+            let _guard = RealCall::new(&key);
+            let mut envs = vec![];
+            let r = std::panic::catch_unwind(std::panic::AssertUnwindSafe(|| {
+                let c = apply(cmd.build(&mut envs), &ux);
+                c.try_get_matches_from(argv_os(&argv)).err().map(|e| {
+                    let ia = match e.get(ContextKind::InvalidArg) { Some(ContextValue::String(x)) => x.clone(), _ => String::new() };
+                    let prior = match e.get(ContextKind::PriorArg) { Some(ContextValue::Strings(v)) => v.clone(), Some(ContextValue::String(x)) => vec![x.clone()], _ => vec![] };
+                    let usage = match e.get(ContextKind::Usage) { Some(ContextValue::StyledStr(u)) => u.to_string(), _ => String::new() };
+                    (e.kind(), ia, prior, usage) })
+            }));
+            for e in envs { std::env::remove_var(e); }
+            let real = match r {
+                Err(_) => { rep.oracle_fail("error-render-panics", &key, "building the ArgumentConflict error panicked"); continue; }
+                Ok(Some((ErrorKind::ArgumentConflict, ia, prior, usage))) => {
+                    rep.count("conflicterr:argument_conflict_errors");
+                    format!("CF {} {}{} L {}", hex(ia.as_bytes()), prior.len(), prior.iter().map(|x| format!(" {}", hex(x.as_bytes()))).collect::<String>(), hex(usage.as_bytes()))
+                }
+                Ok(_) => { rep.count("conflicterr:other_outcome(not compared)"); continue; }
+            };
+            let req = format!("conflicterr {} {} {} ARGV {} {}", cmd.depth(), cmd.encode(), enc_ui("prog", &ux, &[]), argv.len(), argv.iter().map(|a| hex(a)).collect::<Vec<_>>().join(" ")).trim_end().to_string();
+            rep.case(&req, argv.len() >= 3);
+            readable.push(format!("{}\nargv={:?}", cmd.summary(0), argv.iter().map(|a| String::from_utf8_lossy(a).to_string()).collect::<Vec<_>>()));
+            reqs.push(req); reals.push(real);
+        }
+    }
+    if o.driver != "none" {
+        let model = driver_batch(&o.driver, &reqs, o.par);
+        let mut compared = 0u64;
+        for (idx, ((req, m), real)) in reqs.iter().zip(model.iter()).zip(reals.iter()).enumerate() {
+            // the parser's own conflict (a repeated `Set` argument) is not the validator's: not compared here
+            if m == "CF-PARSE" { rep.count("conflicterr:raised_by_the_parser(not compared)"); continue; }
+            compared += 1;
+            if m != real {
+                let show = |s: &str| s.split(' ').map(|t| if t.len() > 2 && t.chars().all(|c| c.is_ascii_hexdigit()) { String::from_utf8_lossy(&unhex(t)).to_string() } else { t.to_string() }).collect::<Vec<_>>().join(" | ");
+                rep.disagree("conflicterr", req, &format!("{m} [{}]", show(m)), &format!("{real} [{}]", show(real)));
+                if rep.notes.len() < 12 { rep.notes.push(readable[idx].clone()); }
+            }
+        }
+        rep.count_n("argument_conflict_errors_compared_with_model", compared);
+    }
+}
